@@ -48,9 +48,19 @@ def accept(module, cfg_text, traces, *, chunk=300, jobs=8, env=None, timeout=180
         if r.violated:
             stats["invariant_violations"].append({"name": r.violated, "trace": ["\n".join(s) for s in r.trace[-3:]]})
         else:
-            for t in ch:
-                if t["id"] not in verdicts:
-                    raise MachineryError("acceptor %s: trace %s got no verdict" % (module, t["id"]))
+            missing = [t for t in ch if t["id"] not in verdicts]
+            if missing:
+                # a verdict line can be lost when TLC's own progress output lands in the middle of it (long batches on a
+                # loaded machine): those traces are judged again, by themselves
+                r2 = one(missing, 9000 + len(missing))
+                for v in tlc.tagged(r2, "V"):
+                    verdicts.setdefault(v["tid"], []).append(v)
+                if r2.violated:
+                    stats["invariant_violations"].append({"name": r2.violated, "trace": ["\n".join(s) for s in r2.trace[-3:]]})
+                else:
+                    for t in missing:
+                        if t["id"] not in verdicts:
+                            raise MachineryError("acceptor %s: trace %s got no verdict" % (module, t["id"]))
     return verdicts, stats
 
 
